@@ -222,6 +222,22 @@ func (b *CredentialBuilder) proveCommitment(nonce1 *big.Int) (Proof, error) {
 	if err != nil {
 		return nil, err
 	}
+	// Every proof needs randomizers of its own. This function may be called again on the same
+	// builder (the issuer sent a fresh nonce after a dropped session): with the randomizers drawn
+	// when the builder was made, two such proofs would reveal v' and the user's shares of the
+	// random blind attributes.
+	vPrimeCommit, err := common.RandomBigInt(b.pk.Params.LvPrimeCommit)
+	if err != nil {
+		return nil, err
+	}
+	mUserCommit := make(map[int]*big.Int)
+	for i := range b.mUser {
+		mUserCommit[i], err = common.RandomBigInt(b.pk.Params.LmCommit)
+		if err != nil {
+			return nil, err
+		}
+	}
+	b.vPrimeCommit, b.mUserCommit = vPrimeCommit, mUserCommit
 	contrib, err := b.Commit(map[string]*big.Int{"secretkey": sCommit})
 	if err != nil {
 		return nil, err
